@@ -11,13 +11,13 @@ import NmVerif.Index.SelCommon
     `Index.indexConcatenate a b d axis`, `Index.indexConcatenateNone a b d` : Option (Bool × Idx)   index::concatenate
     `Index.concatenateView a b axis : Option IxView2`  view::concatenate(lhs, rhs, axis) (`axis : Option Int`)
 
-  Facts mirrored (concatenate.hpp:34-100, 166-230; view/concatenate.hpp:110-125):
+  Facts mirrored (concatenate.hpp; view/concatenate.hpp:110-125):
+    * both functions normalise the axis first (`a < 0 ? a + len(ashape) : a`, repaired: "concatenate.negative-axis",
+      which also repairs `stack` with a negative axis);
     * `shape_concatenate`: ranks must agree; `ret` is zero-initialised, the loop stops at the first non-axis extent
-      that differs (`success = false`, later entries stay 0); `(idx_t) i == (idx_t) axis` is an unsigned comparison,
-      so a negative axis selects no entry: equal shapes come back unchanged, different ones fail;
+      that differs (`success = false`, later entries stay 0);
     * `view::concatenate` only *asserts* `success` (compiled out under NDEBUG) and builds the view with `ret` anyway;
-    * `index::concatenate` reads `ashape[axis]`, `bshape[axis]`, `d[axis]` through `nmtools::at` (Python-style wrap)
-      but adjusts the right operand's index only where `(idx_t) i == (idx_t) axis` (unsigned again).
+    * `index::concatenate` reads `ashape[axis]`, `bshape[axis]`, `d[axis]` and adjusts the right operand's index where `i == axis`.
   Core Lean only.
 -/
 namespace NmVerif.Index
@@ -55,7 +55,7 @@ def shapeConcatLoop (axis : Int) : Nat → Shape → Shape → Bool × Shape
       else (false, List.replicate (as.length + 1) 0)
 
 def shapeConcatenate (a b : Shape) (axis : Int) : Bool × Shape :=
-  if a.length = b.length then shapeConcatLoop axis 0 a b
+  if a.length = b.length then shapeConcatLoop (normAxis axis a.length) 0 a b
   else (false, List.replicate a.length 0)
 
 def shapeConcatenateNone (a b : Shape) : Shape := [prod a + prod b]
@@ -68,7 +68,8 @@ def indexConcatenateNone (a b : Shape) (d : Idx) : Option (Bool × Idx) :=
       else none
   | [] => none
 
-def indexConcatenate (a b : Shape) (d : Idx) (axis : Int) : Option (Bool × Idx) :=
+def indexConcatenate (a b : Shape) (d : Idx) (axis0 : Int) : Option (Bool × Idx) :=
+  let axis := normAxis axis0 a.length
   match atPy a axis, atPy b axis, atPy d axis with
   | some aa, some ba, some ia =>
       if ia < aa then some (false, d.take a.length)
